@@ -15,12 +15,14 @@ def run(R, tier, seed, only=None):
     kchecks.check_id(R, drv, tier)
     kchecks.check_fold(R, drv, tier, want=("panic",))
     kchecks.check_sstr(R, drv, tier)
+    import strlex
+    strlex.check_strlex_total(R, drv, tier)
     drv.close()
-    R.cov["bounds"] = {"take_ranges": "k <= 2 (quick) / 3 (thorough) consecutive takes, every bound any i64 or absent", "integers": "64-bit bit-vectors, overflow checks on (dev profile)"}
+    R.cov.setdefault("bounds", {}).update({"take_ranges": "k <= 2 (quick) / 3 (thorough) consecutive takes, every bound any i64 or absent", "integers": "64-bit bit-vectors, overflow checks on (dev profile)"})
     R.cov["traces_validated_against_impl"] = R.cov["queries"].get("sat", 0)
     R.cov["explanation"] = "bounded symbolic execution of the kernels' MIR (regenerated from the current tree); every panic exit is a z3 query; models are replayed through prqlc::compile / rq_to_sql"
     R.cov["trusted_base"] = ["z3 5.1.0", "rustc nightly MIR front end", "engines/mirsym (MIR interpreter + std models listed in models_used)"]
-    R.cov["outside_bounds"] = ["panics reachable only through tree-shaped data (unpack, todo!, cid lookups, error composition)", "stack exhaustion", "running time", "lexer/parser/resolver"]
+    R.cov["outside_bounds"] = ["panics reachable only through tree-shaped data (unpack, todo!, cid lookups, error composition)", "stack exhaustion", "running time", "lexer (except its hand-written string reader, K-strlex-total) / parser / resolver"]
     R.assumptions += ["source entry: take bounds satisfy validate_take_range (>= 1); rq-json entry: no precondition",
                       "try_range_into_int is stubbed: ranges arrive as integer ranges, the non-integer error path is a separate alternative",
                       "serde_json::Number is modelled by its documented contract over N::{PosInt(u64), NegInt(i64<0), Float}: is_i64, is_f64, as_i64, as_f64"]
